@@ -224,3 +224,31 @@ def comb_gen(rng):
     for k in range(0, 4):
         for x in _strings("ABC", 4):
             yield {"seq": S(x), "max_edits": I(k)}
+
+
+CUSTOM_FNS = ["None", "'hamming'", "(lambda a, b: 0.5 * (a != b))", "(lambda a, b: 10 * specref.lev(a, b))",
+              "(lambda a, b: abs(len(a) - len(b)) + (a != b))"]
+
+
+@scope("search_calls")
+def search_calls(rng):
+    pool = ["", "A", "AA", "AB", "ABC", "BCD", "AAB", "ABB", "B", "ABCD", "BCDE", "AAAA", "AAA", "AAC", "AAAC"]
+    for _ in range(4000):
+        n = rng.randint(1, 5)
+        seqs = [rng.choice(pool) for _ in range(n)]
+        two = rng.random() < 0.4
+        rec = {"seqs": seq([S(x) for x in seqs], "list"), "max_edits": I(rng.choice([1, 1, 2, 3, 0])),
+               "max_returns": NONE, "n_cpu": I(1), "custom_distance": py(rng.choice(CUSTOM_FNS)),
+               "max_custom_distance": rng.choice([{"t": "inf"}, R(1), R(0.5), R(20)]),
+               "output_type": {"t": "const", "v": rng.choice(["triplets", "triplets", "coo_matrix", "ndarray"])},
+               "seqs2": seq([S(rng.choice(pool)) for _ in range(rng.randint(1, 4))], "list") if two else NONE,
+               "progress": {"t": "const", "v": False}}
+        yield rec
+
+
+def _build_ns2():
+    from replay import specref
+    BUILD_NS.update(specref=specref)
+
+
+_build_ns2()
